@@ -167,6 +167,35 @@ def sub_sim3(case):
     return "extreme_scale" if abs(math.log10(s)) >= 2 else ("scale_near_1" if near_one else "generic")
 
 
+def sub_int_matrices(case):
+    """hand-written style elements: quarter-turn rotations, integer translation and scale, stored with an INTEGER dtype
+    (as in evo's own test data); inverses and relative poses are fractional and must not be truncated"""
+    k = int(case["qk"])
+    R = np.round(gen.rot_matrix({"quarter": [k % 4, (k // 4) % 4, (k // 16) % 4]}))
+    t = np.asarray(case["t"], dtype=float)
+    s = int(case["s"])
+    S = np.eye(4, dtype=np.int64)
+    S[:3, :3] = (s * R).astype(np.int64)
+    S[:3, 3] = t.astype(np.int64)
+    Sf = S.astype(float)
+    Si = np.asarray(lie.sim3_inverse(S), dtype=float)
+    _close(Sf @ Si, np.eye(4), 1e-12 * (1 + np.abs(t).max()), "S * S^-1 != I for an integer-dtype Sim(3) matrix")
+    gi = float(lie.sim3_scale(Si))
+    if not abs(gi - 1.0 / s) <= 1e-12:
+        raise Mismatch("scale of the inverse of an integer-dtype Sim(3) matrix is %r, expected %r" % (gi, 1.0 / s), observed="value")
+    if not lie.is_sim3(S) or not lie.is_sim3(S, s):
+        raise Mismatch("genuine integer-dtype Sim(3) element rejected", observed="reject_genuine")
+    P = np.eye(4, dtype=np.int64)
+    P[:3, :3] = R.astype(np.int64)
+    P[:3, 3] = t.astype(np.int64)
+    Pf = P.astype(float)
+    _close(Pf @ np.asarray(lie.se3_inverse(P), dtype=float), np.eye(4), 1e-12 * (1 + np.abs(t).max()), "P * P^-1 != I for an integer-dtype SE(3) matrix")
+    _close(np.asarray(lie.relative_se3(P, S if s == 1 else P), dtype=float), np.eye(4), 1e-12 * (1 + np.abs(t).max()), "rel(A, A) != I (integer dtype)")
+    if not lie.is_se3(P):
+        raise Mismatch("genuine integer-dtype SE(3) element rejected", observed="reject_genuine")
+    return "int_matrix/s%d" % min(s, 3)
+
+
 # ---- 6. angle metric ----------------------------------------------------------------------------
 
 def _d(A, B):
@@ -329,6 +358,9 @@ SUBS = [
         nontrivial=lambda c: max(c["A"]["mag"], c["B"]["mag"]) >= 1e6),
     Sub("sim3", sub_sim3, st.fixed_dictionaries({"P": st_pose, "s": st_scale}), 3000, 150000,
         nontrivial=lambda c: abs(math.log10(c["s"])) >= 2 or c["P"]["mag"] >= 1e6 or (c["s"] != 1.0 and abs(c["s"] - 1.0) <= 1e-4)),
+    Sub("int_matrices", sub_int_matrices, st.fixed_dictionaries({
+        "qk": st.integers(0, 63), "t": st.lists(st.integers(-9, 9).map(float), min_size=3, max_size=3), "s": st.sampled_from([1, 2, 3, 4, 5, 8])}),
+        400, 5000, nontrivial=lambda c: c["s"] != 1),
     Sub("metric", sub_metric, st.fixed_dictionaries({"A": gen.st_rotation, "B": gen.st_rotation, "C": gen.st_rotation}), 3000, 150000,
         nontrivial=lambda c: _near_end(rm.rot_angle_between(gen.rot_matrix(c["A"]), gen.rot_matrix(c["B"])))),
     Sub("member", sub_member, st.fixed_dictionaries({"P": st_pose, "s": st_scale, "near": st_near, "history": st.booleans()}), 4000, 200000,
